@@ -97,6 +97,16 @@ def _resolve(x):
     return x
 
 
+# Process-unit ids: the model knows units as numbers; the real ids are chosen so that they are substrings / SQL-LIKE
+# matches of each other ('_' and '%' are LIKE wildcards).  "Listed units" must be matched exactly, so a subscriber who
+# listed only LAB_Unit10 or LABxUnit1 must not hear about LAB_Unit1, nor one who listed U10 about U1, nor anybody about "U%".
+UNIT_NAMES = {0: "LAB_Unit1", 1: "LABxUnit1", 2: "LAB_Unit10", 3: "U%", 4: "U10", 5: "U1"}
+
+
+def unit_name(u: int) -> str:
+    return UNIT_NAMES.get(u, f"E{u}")
+
+
 def _scope(i: int):
     from openpectus.aggregator.models import NotificationScope as S
     return [S.PROCESS_UNITS_I_HAVE_ACCESS_TO, S.PROCESS_UNITS_WITH_RUNS_IVE_CONTRIBUTED_TO, S.SPECIFIC_PROCESS_UNITS][i]
@@ -229,7 +239,7 @@ def execute(case):
                 from datetime import datetime, UTC
                 from unittest.mock import AsyncMock
                 from openpectus.aggregator.aggregator import FromFrontend
-                ed = Mdl.EngineData(engine_id=f"E{op[1]}", computer_name="c", engine_version="1", hardware_str="",
+                ed = Mdl.EngineData(engine_id=unit_name(op[1]), computer_name="c", engine_version="1", hardware_str="",
                                     uod_name="u", uod_author_name="", uod_author_email="", uod_filename="",
                                     location="", data_log_interval_seconds=1)
                 ed.required_roles = {f"role{r}" for r in op[2]}
@@ -239,8 +249,8 @@ def execute(case):
                 dispatcher.rpc_call = AsyncMock(return_value=AM.SuccessMessage())       # the engine answers ok
                 fe_publisher = Mock()
                 fe_publisher.publish_method_changed = AsyncMock()
-                eng.update(id=f"E{op[1]}", data=ed,
-                           ff=FromFrontend({f"E{op[1]}": ed}, dispatcher, fe_publisher, publisher))
+                eng.update(id=unit_name(op[1]), data=ed,
+                           ff=FromFrontend({unit_name(op[1]): ed}, dispatcher, fe_publisher, publisher))
                 obs.append(("ok",))
                 continue
             if k == "act":
@@ -258,7 +268,7 @@ def execute(case):
                     rows = [(r.id, _unum(r.user_id)) for r in
                             database.scoped_session().scalars(select(DMdl.WebPushSubscription)).all()]
                 publisher.wp = Mock() if conf else None
-                unit = Mdl.EngineData(engine_id=f"E{uid}", computer_name="c", engine_version="1", hardware_str="",
+                unit = Mdl.EngineData(engine_id=unit_name(uid), computer_name="c", engine_version="1", hardware_str="",
                                       uod_name="u", uod_author_name="", uod_author_email="", uod_filename="",
                                       location="", data_log_interval_seconds=1)
                 unit.required_roles = {f"role{r}" for r in req}
@@ -266,7 +276,7 @@ def execute(case):
                                      for i, c in enumerate(contribs)}
                 notification = Mdl.WebPushNotification(
                     title="t", timestamp=ts,
-                    data=Mdl.WebPushData(process_unit_id=f"E{uid}", contributor_id=None if cid is None else f"user{cid}"))
+                    data=Mdl.WebPushData(process_unit_id=unit_name(uid), contributor_id=None if cid is None else f"user{cid}"))
                 posted.clear()
                 posted_pairs.clear()
                 _run(publisher.publish_message(notification, topics[topic], unit))
@@ -278,7 +288,7 @@ def execute(case):
                 if k == "pref":
                     repo.store_notifications_preferences(Mdl.WebPushNotificationPreferences(
                         user_id=f"user{op[1]}", user_roles={f"role{r}" for r in op[2]}, scope=_scope(op[3]),
-                        topics={topics[t] for t in op[4]}, process_units={f"E{u}" for u in op[5]}))
+                        topics={topics[t] for t in op[4]}, process_units={unit_name(u) for u in op[5]}))
                     obs.append(("ok",))
                 elif k == "sub":
                     repo.store_subscription(WebPushSubscription(
@@ -677,7 +687,9 @@ def run(ctx: Check) -> int:
     ctx.assumptions = ["preferences are written through WebPushRepository.store_notifications_preferences (topics are "
                        "NotificationTopic values)", "a subscription = one subscribe call of a user with an endpoint (the code as it is stores one row per call; the "
                        "oracle derives the subscriptions from the history, not from the table)",
-                       "time.time() inside webpush_publisher is pinned during a case"]
+                       "time.time() inside webpush_publisher is pinned during a case",
+                       "process-unit ids used: " + ", ".join(f"{k}={v!r}" for k, v in sorted(UNIT_NAMES.items())) +
+                       " (substrings / LIKE matches of each other on purpose)"]
     return ctx.finish(search=lambda c: c.monitor(gen_e2e_small() + gen_shared() + gen_e2e(c, 500) + gen_random(c, 1500)
                                                   + gen_exhaustive(), oracle, impl_timeout=60.0))
 
